@@ -38,7 +38,7 @@ CHECKS = {
  'C10': ('exploration', 'seq', 'deterministic simulation: seeded histories with injected flush timing against a reference model',
          'every read in seeded histories is compared with the reference model session view under never/always/seeded injected flush timing', 'DESIGN 5 C10'),
  'C11': ('exploration', 'seq', 'deterministic simulation: identity-map invariants after every step of seeded histories',
-         'index/object bijection invariant after every operation plus identity audits through every access path', 'DESIGN 5 C11'),
+         'index/object bijection invariant after every operation plus identity audits through every access path (Entity[pk], get, select, navigation, proxies kept across sessions, base-class lookups of subclass objects)', 'DESIGN 5 C11'),
  'C12': ('exploration', 'seq', 'deterministic simulation: relationship symmetry invariants after every step of seeded histories',
          'both-ends-agree invariant over loaded state after every operation; link tables compared with the model at commit', 'DESIGN 5 C12'),
  'C13': ('fault_enumeration', 'seq', 'deterministic simulation: fault enumeration over the internal DB calls of failing modifications + seeded histories',
@@ -46,9 +46,9 @@ CHECKS = {
  'C14': ('exploration', 'seq+conc', 'deterministic simulation: seeded histories and thread schedules with key collisions',
          'duplicate keys must be reported at the operation or prevent the commit; dumps never hold equal keys; a third of the histories on tables without UNIQUE constraints (only the session can report); concurrent creators under seeded schedules', 'DESIGN 5 C14'),
  'C15': ('exploration', 'seq', 'deterministic simulation: seeded deletion histories against model cascade semantics',
-         'model cascade semantics plus foreign_key_check after every commit', 'DESIGN 5 C15'),
+         'model cascade semantics in both directions (accepted what the rule refuses / refused what it accepts), bulk query deletes against a model of the declared foreign keys, foreign_key_check after every commit', 'DESIGN 5 C15'),
  'C16': ('exploration', 'seq', 'deterministic simulation: seeded histories under immediate foreign keys',
-         'a clean orderable session never gets an integrity error at flush; cycles raise and do not commit', 'DESIGN 5 C16'),
+         'a clean orderable session never gets an integrity error at flush; reference cycles among new objects raise, are never saved silently and leave nothing of the session in the database', 'DESIGN 5 C16'),
  'C17': ('fault_enumeration', 'crash', 'deterministic simulation: crash snapshot at every DB-API call boundary + error injection at every call index',
          'every call-boundary snapshot of the database files equals the last committed model state; every (call index, fault kind) leaves all or nothing, also when the program catches the error inside the session, carries on and rolls back; connection loss on a stand-in reconnecting provider', 'DESIGN 5 C17'),
  'C18': ('fault_enumeration', 'sess', 'deterministic simulation: enumerated db_session configuration grid with injected exceptions and commit faults against an executable spec',
@@ -64,7 +64,7 @@ CHECKS = {
  'C23': ('exploration', 'seq', 'deterministic simulation: seeded histories under randomised loading knobs against one reference model',
          'the C09/C10 oracles under lazy attributes (scalars and references), lazy collections, prefetch, batch thresholds and parameter limits chosen by seeded knobs; reads that raise a repeatable-read error in single-writer histories', 'DESIGN 5 C23'),
  'C32': ('exploration', 'seq', 'deterministic simulation: seeded histories ending sessions every way, then operations on detached objects',
-         'mutations of detached objects raise, send zero DB calls and change nothing', 'DESIGN 5 C32'),
+         'mutations of detached objects (attributes, collections, delete, in-place changes of tracked Json values, use as a value in a later session) raise, send zero DB calls and change nothing', 'DESIGN 5 C32'),
  'C33': ('exploration', 'seq', 'deterministic simulation: recorded hook/statement event history, exactly-once and ordering oracle',
          'hook events interleaved with statement events: exactly once, ordered, edits saved in the same flush; hooks that log, read, edit, create, link, or edit other objects from after_* hooks', 'DESIGN 5 C33'),
  'C35': ('exploration', 'conc', 'deterministic simulation: seeded schedules of a locking session against Pony writers and an external raw writer',
